@@ -52,10 +52,13 @@ def trace_of(m, t):
     tr = m['trace'][t]
     if tr.is_empty():
         return '', [], tr
-    rows = [i for i, nm in enumerate(tr.names) if nm != XTRA]
-    cols = tr.values[rows, :].T
-    s = ';'.join(f'{lab}:' + ','.join(str(bits(x)) for x in col) for lab, col in zip(tr.index, cols))
-    return s, list(tr.index), tr
+    try:
+        rows = [i for i, nm in enumerate(tr.names) if nm != XTRA]
+        cols = tr.values[rows, :].T
+        s = ';'.join(f'{lab}:' + ','.join(str(bits(x)) for x in col) for lab, col in zip(tr.index, cols))
+        return s, list(tr.index), tr
+    except Exception as e:  # noqa: BLE001   a trace object that cannot even be read is an observation, not a harness error
+        return f'malformed:{type(e).__name__}', ['<malformed>'], tr
 
 
 def run_traced(case, trace_arg, repeat=1, entry='solve_t', reset=False):
@@ -118,6 +121,11 @@ def oracle(case, trace_arg, names_idx, repeat, entry, rep, reset=False):
                     f'trace={trace_arg!r} entry={entry}: traced {tags_t} {state_str(mt, nE)} vs untraced {tags_u} {state_str(mu, nE)}',
                     {'case': case, 'trace': trace_arg, 'repeat': repeat, 'entry': entry, 'reset': reset})
     s, labels, tr = trace_of(mt, pos)
+    if labels == ['<malformed>']:
+        rep.violate('trace-malformed', f'trace={trace_arg!r} entry={entry}: the trace of period {pos} cannot be read ({s}): '
+                    f'names {list(getattr(tr, "names", []))}, values shape {getattr(getattr(tr, "values", None), "shape", None)}',
+                    {'case': case, 'trace': trace_arg, 'repeat': repeat, 'entry': entry, 'reset': reset})
+        return s, mt, tags_t
     if labels and XTRA in list(tr.names):
         row = list(tr.names).index(XTRA)
         got = [float(x) for x in np.asarray(tr.values[row, :], dtype=float)]
